@@ -181,6 +181,18 @@ def apply_corruption(C: Ctx, corr):
         q = W / f"zdup.p{corr[1]}.ih5"
         q.write_bytes(C.pristine[C.names[corr[1]]])
         return C.paths + [q]
+    if k == "reuse-uuid":
+        # the newest container's user block carries the patch_uuid of the earlier container j (everything else untouched;
+        # the user block is not part of the hashed payload, and only the newest container's uuid is not pinned by a successor)
+        from metador_core.ih5.record import IH5UserBlock
+
+        _, j = corr
+        p = C.paths[-1]
+        ub = IH5UserBlock.load(p)
+        ub.patch_uuid = IH5UserBlock.load(C.paths[j]).patch_uuid
+        ub.save(p)
+        C.dirty.add(p.name)
+        return C.paths
     if k in ("mf-flip", "mf-trunc", "mf-extend", "mf-missing", "mf-older", "mf-foreign"):
         m = mf_path(C.paths[-1])
         data = C.pristine[m.name]
@@ -244,6 +256,8 @@ def structural_corruptions(C: Ctx, tier: str):
     for i in range(n):
         out.append((["add-foreign", i, 1], f"add-foreign:{C.pos(i)}", f"container {i} of another record added to the set", FN_OPEN))
         out.append((["dup", i], f"dup:{C.pos(i)}", f"container {i} duplicated under another file name (same patch_uuid twice)", FN_OPEN))
+    for j in range(n - 1):
+        out.append((["reuse-uuid", j], f"reuse-uuid:{'adjacent' if j == n - 2 else 'distant'}", f"newest container carries the patch_uuid of container {j} of {n} (duplicated patch_uuid)", FN_OPEN))
     out.append((["add-foreign", 0, 2], "add-foreign:unrelated-base", "base of an unrelated record added to the set", FN_OPEN))
     for j in range(1, n):
         if j < n - 1:
